@@ -832,6 +832,9 @@ def unit_ctor(S):
                 pre.append(("expr", [("id", "work"), ("op", "."), ("id", "resize"), ("op", "(")] + arg + [("op", ")")]))
             else:
                 pre.append(("assign", [("id", mem)], "=", arg))
+    nwork = len([st for st in ast if '"work"' in json.dumps(st, ensure_ascii=False)]) + len([st for st in pre if st[0] == "expr"])
+    if nwork != (1 if "work" in S.members else 0):
+        raise OutOfGrammar("%s: the work buffer is sized %d times" % (name, nwork))
     order = [s[1][0][1] if s[0] == "assign" else "work" for s in pre]
     if order != [mm for mm in S.members if mm in order]:
         raise OutOfGrammar("%s: member initialisers not in declaration order" % name)
